@@ -197,7 +197,9 @@ struct History {
       case OP_GET: { SolModel *m = selm(); if (!m) break; bool valid; std::string n = pname(m, valid); trace.back() += " " + n; Scalar g; { Quiet q; g = masa_get_param<Scalar>(n); }
           if (valid) { long double want = 0; for (auto &kv : m->params) if (kv.first == n) want = kv.second; if (!biteq<Scalar>(g, (Scalar)want)) fail("C11", "masa_get_param('" + n + "') returned " + decld(g) + ", last value set is " + decld(want)); }
           else { cls["get_invalid_name"]++; if (!(g == (Scalar)-20)) fail("C11", "masa_get_param of unknown name '" + n + "' returned " + decld(g) + " instead of -20"); check_selected<Scalar>(P, "C11", "after masa_get_param of an unknown name"); } break; }
-      case OP_INITP: { SolModel *m = selm(); if (!m) break; int rc; { Quiet q; rc = masa_init_param<Scalar>(); } if (rc != 0) fail("C11", "masa_init_param returned " + std::to_string(rc) + " on " + m->name); const SolModel &d = defaults[P][m->name]; m->params = d.params; for (auto &kv : d.vecs) if (init_param_resets_vec(m->name, kv.first)) m->vecs[kv.first] = kv.second; cls["init_param"]++;
+      case OP_INITP: { SolModel *m = selm(); if (!m) break; int rc; { Quiet q; rc = masa_init_param<Scalar>(); } bool fixture = m->name == "masa_test_function" || m->name == "masa_uninit";
+          if (fixture) { *m = snapshot_selected<Scalar>(m->name); cls["init_param_on_fixture"]++; break; }   // the two self-test fixtures are outside C11: the model follows the library, the call still runs (memory safety)
+          if (rc != 0) fail("C11", "masa_init_param returned " + std::to_string(rc) + " on " + m->name); const SolModel &d = defaults[P][m->name]; m->params = d.params; for (auto &kv : d.vecs) if (init_param_resets_vec(m->name, kv.first)) m->vecs[kv.first] = kv.second; cls["init_param"]++;
           check_selected<Scalar>(P, "C11", "after masa_init_param"); break; }
       case OP_PURGE: { SolModel *m = selm(); if (!m) break; { Quiet q; masa_purge_default_param<Scalar>(); } for (auto &kv : m->params) kv.second = (long double)(Scalar)-12345.67; cls["purge"]++; check_selected<Scalar>(P, "C11", "after masa_purge_default_param"); break; }
       case OP_SANITY: { SolModel *m = selm(); if (!m) break; int rc; try { Quiet q; rc = masa_sanity_check<Scalar>(); } catch (int) { fail("C11", "masa_sanity_check raised the fatal error on " + m->name); break; } bool bad = false; for (auto &kv : m->params) if (biteq<Scalar>((Scalar)kv.second, (Scalar)-12345.67)) bad = true; for (auto &kv : m->vecs) if (kv.second.empty()) bad = true; cls[bad ? "sanity_expected_1" : "sanity_expected_0"]++;
